@@ -3640,6 +3640,13 @@ void space_text()
                           __func__, __LINE__, pc->Text(), next->Text());
                   pc->SetFlagBits(PCF_FORCE_SPACE);
                }
+               else if (  pc->GetStr()[pc->Len() - 1] == '/'
+                       && (  next->GetStr()[0] == '*'
+                          || next->GetStr()[0] == '/'))
+               {
+                  // a '/' directly before '*' or '/' would start a comment: a / *p
+                  pc->SetFlagBits(PCF_FORCE_SPACE);
+               }
                // TODO:  what is the meaning of 4
                else if (  !kw1
                        && !kw2
